@@ -63,6 +63,7 @@ def run(ctx):
     hists += fc.random_scripts(rng, 400 if ctx.thorough else 70, 12, WEIGHTS)
     # G4b: change-then-revert through different names of one link (values repeat)
     hists += fc.revert_scripts(rng, 300 if ctx.thorough else 40)
+    hists += fc.linked_subtree_scripts(rng, 48 if ctx.thorough else 12)
     hists = fc.finding_scripts("C21") + hists
     fc.drive_and_judge(ctx, hists, nontrivial, mutate, ["C21"])
     ctx.rule = ("executions = one TLC witness history per (namespace state incl. link records, last operation) to depth %d "
